@@ -415,8 +415,11 @@ def r13d(ctx: Context) -> None:
         rule.ok(key, "first non-logging call of subsystem initialisation")
     else:
         rule.fail(key, where(init), "the return-code scheme chosen by a previous main() in this process is not reset before arguments are parsed")
-    sites = [s for s in prog.sites_in(main) if init in s.targets]
-    if sites and not guards_of(main.node, sites[0].node):
+    from sa.rules.common import application_workflow
+
+    holder, delegated_unconditionally = application_workflow(prog, init)
+    sites = [s for s in prog.sites_in(holder) if init in s.targets]
+    if sites and delegated_unconditionally and not guards_of(holder.node, sites[0].node):
         rule.ok(f"{main.short}: initialises", "unconditional")
     else:
         rule.fail(f"{main.short}: initialises", where(main), "main does not always run subsystem initialisation")
